@@ -34,7 +34,7 @@ const hcDomain = "hc.probe.test."
 
 var allStates = []string{
 	"up", "up", "up", "silent", "refuse", "close", "wrong-id", "wrong-name", "wrong-type", "two-questions",
-	"tc-then-tcp", "garbage", "short", "cut", "ancount", "servfail", "nxdomain", "dup", "error-without-question", "wrong-id-then-tcp-closes",
+	"tc-then-tcp", "garbage", "short", "cut", "ancount", "servfail", "nxdomain", "dup", "error-without-question", "wrong-id-then-tcp-closes", "truncated-wrong-id",
 }
 
 func classOf(state string) string {
@@ -171,6 +171,14 @@ func (u *upstream) reply(req *dns.Msg, tr string) (raw [][]byte, closeAfter bool
 	case "wrong-id":
 		m := good()
 		m.Id ^= 0x5555
+
+		return [][]byte{pack(m)}, false
+	case "truncated-wrong-id":
+		// A stray reply that also says it was truncated, on both transports.
+		m := good()
+		m.Id ^= 0x5555
+		m.Truncated = true
+		m.Answer = nil
 
 		return [][]byte{pack(m)}, false
 	case "wrong-id-then-tcp-closes":
